@@ -297,12 +297,12 @@ fn call_everything(case: &GCase, g: &GS, rng: &mut Rng, want_dump: bool) -> (u64
     let budget = 200 + 20 * n as u64;
     for w in [false, true] {
         for seed in [0u64, 7] {
-            graphrs::verif_hooks::set_budget("louvain_sweep", Some(budget));
+            crate::ctx::set_budget("louvain_sweep", Some(budget));
             graphrs::verif_hooks::take_ticks("louvain_sweep");
             r.call("louvain_partitions", format!("{},{}", w, seed), || res(louvain::louvain_partitions(g, w, Some(1.0), None, Some(seed)), |l| format!("{:?}", l.iter().map(|x| sets(x)).collect::<Vec<_>>())));
             graphrs::verif_hooks::take_ticks("louvain_sweep");
             r.call("louvain_communities", format!("{},{}", w, seed), || res(louvain::louvain_communities(g, w, None, Some(0.0), Some(seed)), |l| sets(&l)));
-            graphrs::verif_hooks::set_budget("louvain_sweep", None);
+            crate::ctx::set_budget("louvain_sweep", None);
         }
     }
     // ---- components
@@ -595,6 +595,13 @@ pub fn run_c20(a: &Args) {
                 r.call("multi_source", format!("{} (48-thread pool)", w), || big_pool.install(|| res(dijkstra::multi_source(&g, w, names.clone(), names.first().cloned(), None, true, true), |m| format!("{}", m.len()))));
                 r.call("get_all_shortest_paths_involving", format!("{} (48-thread pool)", w), || big_pool.install(|| format!("{}", dijkstra::get_all_shortest_paths_involving(&g, names[0].clone(), w).len())));
                 r.call("clustering", format!("{},first (48-thread pool)", w), || big_pool.install(|| res(cluster::clustering(&g, w, Some(&names[..1])), |m| fmap(&m))));
+                // names that are not in the graph, on the parallel branch
+                let absent = "zz-absent".to_string();
+                let mut with_absent = names.clone();
+                with_absent.insert(names.len() / 2, absent.clone());
+                r.call("multi_source", format!("{},absent-source among all (48-thread pool)", w), || big_pool.install(|| res(dijkstra::multi_source(&g, w, with_absent.clone(), None, None, false, false), |m| format!("{}", m.len()))));
+                r.call("multi_source", format!("{},absent-target (48-thread pool)", w), || big_pool.install(|| res(dijkstra::multi_source(&g, w, names.clone(), Some(absent.clone()), None, false, false), |m| format!("{}", m.len()))));
+                r.call("all_pairs", format!("{},absent-target (48-thread pool)", w), || big_pool.install(|| res(dijkstra::all_pairs(&g, w, Some(absent.clone()), None, false, false), |m| format!("{}", m.len()))));
             }
         }
         ctx::eval(r.calls);
